@@ -185,7 +185,8 @@ def _takeLocks(locks, cmdName, path, lockType, nolocks, ntry, verbose):
 def giveLocks(locks, verbose=0):
     """Give up all locks in the provided list of (directory, file)
 
-    If the directory ends up empty, it is removed.  Each lock is dropped from the list as it is
+    If the directory ends up empty, it is removed (by rmdir itself: a count taken before it is stale by the
+    time it is acted upon, and a refused rmdir is nobody's error).  Each lock is dropped from the list as it is
     released, so that a second call with the same list (the atexit/signal handler that takeLocks
     installs, after the command's own call) has nothing left to do
     """
@@ -202,9 +203,10 @@ def giveLocks(locks, verbose=0):
 
             os.remove(f)
 
-        nlockFiles = len(next(os.walk(d))[2])
-        if nlockFiles == 0:
-            os.rmdir(d)
+        try:
+            os.rmdir(d)                 # the last one out removes the directory:
+        except OSError:
+            pass                        # it is refused while somebody else's lock file is in there
 
 def clearLocks(path, verbose=0, noaction=False):
     """Remove all locks found in the directories listed in path"""
